@@ -72,6 +72,7 @@ type choiceRec struct {
 }
 
 type pathSample struct {
+	Model     map[string]string `json:"model,omitempty"`
 	Events    []string `json:"events"`
 	PCSize    int      `json:"pc_size"`
 	SymVars   int      `json:"sym_vars"`
@@ -100,6 +101,7 @@ type results struct {
 	Stubs        map[string]int64  `json:"stubs"`
 	Notes        map[string]string `json:"notes"`
 	failKeys     map[string]bool
+	minSampleEvents int
 }
 
 func newResults() *results {
@@ -172,6 +174,8 @@ type exec struct {
 	bounds  map[string]int64
 	notes   map[string]string
 	clock   value
+	sampleModel map[string]string
+	sampleEvents []string
 	uuidCtr int
 	track   *lockTrack
 	permute bool
@@ -664,15 +668,27 @@ func (e *explorer) merge(ex *exec) {
 			continue
 		}
 		r.failKeys[key] = true
-		if len(r.Failures) < e.cfg.maxFailures {
+		// keep the shortest few traces per obligation
+		n, worst, worstLen := 0, -1, -1
+		for i, g := range r.Failures {
+			if g.Obligation == f.Obligation {
+				n++
+				if len(g.Events) > worstLen {
+					worst, worstLen = i, len(g.Events)
+				}
+			}
+		}
+		if n < e.cfg.maxFailures {
 			r.Failures = append(r.Failures, f)
+		} else if len(f.Events) < worstLen {
+			r.Failures[worst] = f
 		}
 	}
 	if len(ex.failures) > 0 && e.cfg.stopAtFirst {
 		go e.stop("stopped at first failure")
 	}
-	if len(r.Samples) < e.cfg.sampleCount && (st == "ok" || st == "failed") && len(ex.events) > 0 {
-		r.Samples = append(r.Samples, pathSample{Events: append([]string{}, ex.events...), PCSize: len(ex.pc), SymVars: len(ex.vars), Decisions: ex.pos, Status: st})
+	if len(r.Samples) < e.cfg.sampleCount && st == "ok" && len(ex.failures) == 0 && ex.sampleModel != nil && len(ex.events) >= r.minSampleEvents {
+		r.Samples = append(r.Samples, pathSample{Model: ex.sampleModel, Events: ex.sampleEvents, PCSize: len(ex.pc), SymVars: len(ex.vars), Decisions: ex.pos, Status: st})
 	}
 }
 
